@@ -46,11 +46,14 @@ def _parseDEC(x):
 
 
 _xmask = {2: 1 << 9, 8: 1 << 29, 16: 1 << 39}
+_xdigits = {2: '01', 8: '01234567', 16: '0123456789ABCDEFabcdef'}
 
 
 def _x2dec(x, base=16):
     if isinstance(x, XlError):
         return x
+    if isinstance(x, str) and not set(x).issubset(_xdigits[base]):
+        return Error.errors['#NUM!']  # E.g., a sign, a blank, `0b1` or `1_1`.
     try:
         x, y = int(x, base), _xmask[base]
         return (x & ~y) - (y & x)
@@ -67,11 +70,14 @@ def _dec2x(x, places=None, base=16):
         return x
     y = _xmask[base]
     if -y <= x < y:
-        if x < 0:
+        neg = x < 0  # The ten digits of a negative number ignore the places.
+        if neg:
             x += y << 1
         x = _xfunc[base](int(x))[2:].upper()
         if places is not None:
             places = int(places)
+            if neg:
+                return x
             if places >= len(x):
                 return x.zfill(int(places))
         else:
